@@ -174,3 +174,20 @@ def run(ctx, res):
     res.check(consts == [128], "C11.R3", site(d, "fast-path-threshold"), "fast-path threshold is 128 (a varint below 128 is its own single byte)",
               "fast-path threshold is %s" % consts, d.loc(d.body))
     res.floor("C11.R3", 1)
+
+    # ---- R5: the reader's behaviour depends only on index offset, compression and version ----------------
+    res.floor("C11.R5", 1)
+    STATS = {"count_entries", "count_data_blocks", "bytes_data_blocks", "bytes_index_block", "bytes_keys", "bytes_values", "data_block_size"}
+    offenders = []
+    for g in prog.lib_funcs():
+        if g.unit in ("mtbl/metadata.c", "mtbl/writer.c") and g.file.endswith(("metadata.c", "writer.c")):
+            continue
+        for n in walk(g.body):
+            if n["k"] == "MemberExpr" and n.get("rec") == "mtbl_metadata" and n["field"] in STATS:
+                offenders.append((g, n))
+    for g, n in offenders:
+        res.bad("C11.R5", site(g, "reads-statistic:%s" % n["field"]),
+                "reading a table depends on the trailer statistic `%s`, which carries no framing information: a well-formed file whose statistics differ from what "
+                "this code expects (foreign prefix, other writer) is refused or mis-read" % n["field"], g.loc(n))
+    if not offenders:
+        res.ok("C11.R5", "reader:trailer-statistics-unused", "outside metadata.c and the writer nothing reads the trailer's statistics fields")
